@@ -37,6 +37,8 @@ class LayoutAnalysis(progcheck.ProgramAnalysis):
         self.result['backends'] = list(self.backends)
         self.result['accesses'] = 0
         self.leaf_addr_checked = False
+        # accesses made by the global initialiser (before the first dsp call) land here and are not judged against dsp's layout
+        self.cur_step_accesses = []
 
     # -- layout through the real state-tree code ---------------------------------------------------
     def leaves_via_mir(self, it):
@@ -253,7 +255,7 @@ def run(tier, seed):
     common.build_mmdump()
     common.build_mmdump(debug=True)
     mirs = common.prog_mirs()
-    groups = ['st', 'ct', 'op', 'cl', 'gn', 'ga', 'fx', 'sc']
+    groups = ['st', 'ct', 'op', 'cl', 'fi', 'gn', 'ga', 'fx', 'sc']
     files = common.corpus_files(groups, tier, seed)
     steps = 3 if quick else 6
     budget = 60 if quick else 300
